@@ -2,7 +2,7 @@ package main
 
 // C18 (T2): constants and small structural facts of libs/p2p/conn, rendered as Lean data (Gen/ConnFacts.lean).
 //   secret_connection.go  frame constants, the compiled-in frame mode, the `recvBuffer = chunk[n:]` remainder,
-//                         the capacity test in Write
+//                         the capacity test in Write, the rejections of MakeSecretConnection, the calls of shareEphPubKey
 //   connection.go         packet payload / capacity defaults, where nextPacketMsg sets EOF, that recvPacketMsg tests the
 //                         capacity before it appends
 //   libs/p2p/*.go         non-test uses of SecretConnection.RemotePubKey (is the authenticated key ever consulted?)
@@ -221,6 +221,30 @@ func c18Facts(e *env) (string, error) {
 		return true
 	})
 	fmt.Fprintf(&sb, "/-- `if` conditions of `MakeSecretConnection`, in source order -/\ndef handshakeConds : List String := %s\n\n", c18StrList(hconds))
+
+	// --- shareEphPubKey: which functions it calls (qualified selectors), in source order without duplicates
+	fd, err = e.funcDecl(scf, "", "shareEphPubKey")
+	if err != nil {
+		return "", err
+	}
+	var calls []string
+	seenCall := map[string]bool{}
+	ast.Inspect(fd.Body, func(n ast.Node) bool {
+		if ce, ok := n.(*ast.CallExpr); ok {
+			if sel, ok := ce.Fun.(*ast.SelectorExpr); ok {
+				if id, ok := sel.X.(*ast.Ident); ok {
+					name := id.Name + "." + sel.Sel.Name
+					if !seenCall[name] {
+						seenCall[name] = true
+						calls = append(calls, name)
+					}
+				}
+			}
+		}
+		return true
+	})
+	fmt.Fprintf(&sb, "/-- package-qualified / receiver-qualified calls made in `shareEphPubKey`, first occurrences in source order -/\ndef ephKeyCalls : List String := %s\n\n", c18StrList(calls))
+	e.facts = append(e.facts, fact{Module: "ConnFacts", Kind: "callsite", Name: "shareEphPubKey.calls", Value: calls, Pos: e.pos(fd)})
 
 	// --- who consults the authenticated key?  non-test files under libs/p2p (outside conn/) mentioning RemotePubKey
 	var users []string
